@@ -89,6 +89,9 @@ def install_fn(I, fn, result=None, raises=True):
         return rec.ret
 
     I.models[id(fn)] = model
+    # models are keyed by id(): the function object must outlive the Interp, otherwise its id is recycled by an unrelated
+    # transient callable (a bound method created during a later path) which would then be given THIS model
+    I.__dict__.setdefault("_keepalive", []).append(fn)
     return model
 
 
@@ -118,6 +121,12 @@ def _native(meth):
 
 def install(I):
     """inspect binding (native, parametric in the values) and functools.wraps"""
+    # stdlib_models registers its dict.fromkeys model under id(dict.fromkeys): a TRANSIENT builtin-method object, whose id is
+    # recycled by the bound methods this theory creates in large numbers (sig.bind_partial, kwargs.keys, ...).  The C17 targets
+    # never call dict.fromkeys: drop the entry instead of letting a recycled id dispatch to it.
+    for k, m in list(I.models.items()):
+        if getattr(m, "__name__", "") == "_fromkeys":
+            del I.models[k]
     I.models[id(inspect.Signature.bind)] = _native(inspect.Signature.bind)
     I.models[id(inspect.Signature.bind_partial)] = _native(inspect.Signature.bind_partial)
     I.models[id(functools.wraps)] = lambda I, f, *a, **kw: WrapsApply(f)
